@@ -1053,6 +1053,102 @@ def kernel_replay(ctx, recorded):
     ctx.extra["kernel_replayed_histories"] = n
 
 
+# ----------------------------------------------------------------------------- payload independence
+
+PAYLOAD_LITERALS = [      # (literal text, key text) - list payloads klongpy keeps as Python objects in the parse
+    (':{[:log [1 2 3]] [:n 0]}', ':log'),
+    (':{[1 [[1 2] [3 4]]] [2 "s"]}', '1'),
+    (':{["k" [1 [2 "x"]]] [0ca ["a" "bc"]]}', '"k"'),
+    (':{[2.5 [[] [1]]] [:e []]}', '2.5'),
+]
+
+
+def _push(x, y):
+    """what a Python host function does: update the payload it is handed IN PLACE"""
+    if isinstance(x, list):
+        x.append(int(y))
+    elif isinstance(x, np.ndarray) and x.size:
+        x.flat[0] = y
+    return 0
+
+
+def _dict_tok(real, d):
+    if not isinstance(d, dict):
+        return real.canon(d)
+    return "{" + ";".join(sorted(f"{real.nkey(k)}~{real.canon(v)}" for k, v in d.items())) + "}"
+
+
+def _shares(a, b, depth=0):
+    """do two payloads share a mutable object (list / array / dict) at any depth?"""
+    mut = (list, np.ndarray, dict)
+    if isinstance(a, mut) and a is b:
+        return True
+    if depth > 6:
+        return False
+    if isinstance(a, dict) and isinstance(b, dict):
+        return any(_shares(a[k], b[k], depth + 1) for k in a if k in b)
+    if isinstance(a, (list, np.ndarray)) and isinstance(b, (list, np.ndarray)) and len(a) == len(b):
+        if isinstance(a, np.ndarray) and a.dtype != object:
+            return False
+        return any(_shares(x, y, depth + 1) for x, y in zip(a, b))
+    return False
+
+
+def run_payload_family(ctx):
+    """every evaluation of a literal is independent of all earlier ones INCLUDING its list payloads:
+    literal x {top-level text twice, function body, local-variable function body}; the first instance's
+    payload is updated in place from Python (through an interop function called from Klong, and through
+    the object the host got back), then the literal is evaluated again."""
+    for lit, key in PAYLOAD_LITERALS:
+        for ctxname, define, make in (
+                ("top-level", None, lambda v: f"{v}::{lit}"),
+                ("function", f"mk::{{{lit}}}", lambda v: f"{v}::mk()"),
+                ("local", f"mk::{{[t];t::{lit};t}}", lambda v: f"{v}::mk()")):
+            program = []
+            case = dict(kind="payload-family", literal=lit, context=ctxname, program=program)
+            try:
+                fresh = Real()
+                want = _dict_tok(fresh, fresh.ev(lit))          # the literal's value in a fresh interpreter
+                real = Real()
+                real.klong["push"] = _push
+
+                def ev(t):
+                    program.append(t)
+                    return real.ev(t)
+
+                if define:
+                    ev(define)
+                # the same source text for the top-level context (parse-cache hit), same function otherwise
+                a = ev(make("da"))
+                ev(f"push(da?{key};99)")                         # in place, through an interop function
+                b = ev(make("db") if define else make("da"))
+                got_b = _dict_tok(real, b)
+                shared = isinstance(a, dict) and isinstance(b, dict) and _shares(a, b)
+                hb = real.klong["db" if define else "da"]       # the host's handle on the second instance
+                if isinstance(hb, dict):
+                    for v in hb.values():
+                        _push(v, 7)                              # in place, by the host itself
+                    program.append("<host: in-place update of every list payload of the second instance>")
+                c = ev(make("dc") if define else make("da"))
+                got_c = _dict_tok(real, c)
+                got_text = _dict_tok(real, ev(lit))
+                ctx.bump("payload-family:" + ctxname)
+                ctx.count(("payload-family", lit, ctxname))
+                if got_b != want:
+                    ctx.oracle_fail("literal:payload-shared-between-evaluations", case, want, got_b,
+                                    "second evaluation after an in-place update (interop function) of the first "
+                                    "instance's payload")
+                elif got_c != want or got_text != want:
+                    ctx.oracle_fail("literal:payload-shared-between-evaluations", case, want,
+                                    got_c if got_c != want else got_text,
+                                    "evaluation after the host updated the second instance's payloads in place")
+                elif shared:
+                    ctx.oracle_fail("literal:payload-object-shared", case, "distinct payload objects",
+                                    "two instances hold the same list object", "")
+            except Exception as e:  # noqa
+                ctx.oracle_fail("literal:payload-family-raises-" + type(e).__name__, case, "evaluates", repr(e), "")
+
+
 # ----------------------------------------------------------------------------- entry
 
 WITNESS_CHAR_SYM = [
@@ -1245,6 +1341,7 @@ def run(ctx):
         # 1. the recorded finding's witness, replayed on the real code on every run
         run_history(ctx, drv, "witness", ops=WITNESS_CHAR_SYM)
         run_history(ctx, drv, "witness", ops=WITNESS_STRCHAR_SYM)
+        run_payload_family(ctx)
         for h in MODULE_HISTORIES:
             run_history(ctx, drv, "builtin-module", ops=h, module=True)
         run_history(ctx, drv, "builtin-module", ops=BUILTIN_HISTORIES[0], module=True)
@@ -1277,7 +1374,9 @@ def replay(ctx, case):
     drv = Driver("c10") if getattr(ctx, "driver_ok", True) else None
     c = case.get("case", case)
     try:
-        if isinstance(c, dict) and "ops" in c:
+        if isinstance(c, dict) and c.get("kind") == "payload-family":
+            run_payload_family(ctx)
+        elif isinstance(c, dict) and "ops" in c:
             run_history(ctx, drv, "replay", ops=c["ops"], pool=c.get("pool"), module=bool(c.get("module")))
         else:
             run(ctx)
